@@ -269,6 +269,12 @@ inline auto BasicPromise::await_transform(A&& awaitable) noexcept {
 
 inline void BasicPromise::resume_in_executor(
     BasicExecutor* executor, ::std::coroutine_handle<> handle) noexcept {
+  // A coroutine not bound to any executor is resumed inplace, same as
+  // inplace_resumable reports
+  if (executor == nullptr) {
+    handle.resume();
+    return;
+  }
   auto ret = executor->invoke([handle] {
     handle.resume();
   });
